@@ -755,6 +755,30 @@ func jpWorkload(c Case, which string, res *CaseResult) {
 		check(runJP(s9, pl, true, nil), "fault-after-call", jpCheckOpts{plan: pl})
 		res.Count("fault_after_call_runs", 1)
 	}
+	// 10. gas allowances far beyond any block limit (and beyond what an Aspect runtime accepts for one execution):
+	//     with nothing bound the gas still passes through both join points unchanged
+	{
+		callee := h.NewAsm().PushU(1).PushU(0).Op(h.MSTORE).PushU(32).PushU(0).Op(h.RETURN)
+		inner := h.NewAsm().PushU(32).PushU(0).PushU(0).PushU(0).PushU(0).PushAddr(h.ContractAddr(2)).Op(h.GAS, h.CALL).PushU(1).Op(h.SSTORE, h.STOP)
+		top := h.NewAsm().PushU(32).PushU(0).PushU(0).PushU(0).PushU(0).PushAddr(h.ContractAddr(1)).Op(h.GAS, h.CALL).PushU(1).Op(h.SSTORE, h.GAS).PushU(2).Op(h.SSTORE, h.STOP)
+		w := h.BaseWorld([][]byte{top.Bytes(), inner.Bytes(), callee.Bytes()})
+		fork := sc.Fork
+		if fork < h.Tangerine {
+			fork = h.Byzantium
+		}
+		gases := []uint64{9223372036854775, 9223372036854775 + 1 + c.Seed%1000000, 1 << 62, 1 << 63, ^uint64(0)}
+		g := gases[int(c.Seed%uint64(len(gases)))]
+		s10 := &scenario{Fork: fork, NContract: 3, World: w, Tx: h.TxSpec{Entry: h.ECall, From: h.Sender, To: h.ContractAddr(0), Input: []byte{7}, Gas: g, Value: new(big.Int)}}
+		jr := runJP(s10, none, true, nil)
+		check(jr, "huge-gas", jpCheckOpts{benign: true, plan: none})
+		if jr.ir.Panic == "" {
+			// the whole transaction is three tiny frames: it cannot have used more than 200000 gas
+			if jr.ir.Err != nil || g-jr.ir.Gas > 200000 {
+				res.Fail(Key("gas-lost", "huge-gas"), fmt.Sprintf("transaction given %d gas ended with %d left (err=%v): gas disappeared at a join point", g, jr.ir.Gas, jr.ir.Err), s10.desc())
+			}
+		}
+		res.Count("huge_gas_runs", 1)
+	}
 	res.Evals = evals
 	res.Set("forks", sc.Fork.String())
 	if c.Seed%29 == 0 {
